@@ -104,6 +104,10 @@ def c03_oracle(c, tmpdir, rng):
     return fails
 
 
+def rng_choice(ctx, xs):
+    return ctx.rng.choice(xs)
+
+
 def run(ctx):
     t0 = time.time()
     lean_ok = ctx.build(required_theorems=REQUIRED)
@@ -114,8 +118,19 @@ def run(ctx):
     ofails = []
     d = tempfile.mkdtemp(prefix="verif-c03-")
     checked = 0
+    # archives that report many names at once (messages / lists must stay exact however long they are)
+    wide = []
+    for n in (11, 12, 17, 40):
+        items = [{"__class__": f"K{i:02d}", "__module__": f"verif_canary_dyn_w{n}", "__loader__": rng_choice(ctx, ["TypeNode", "FunctionNode", "ObjectNode"]),
+                  "__id__": 1000 + i} for i in range(n)]
+        schema = {"__class__": "list", "__module__": "builtins", "__loader__": "ListNode", "__id__": 1, "content": items,
+                  "protocol": res["fx"]["protocol"], "_skops_version": "x"}
+        c = iocheck.Case()
+        c.schema, c.members, c.origin = schema, {}, "wide"
+        c.data = ioarch.make_zip(schema, {})
+        wide.append(c)
     try:
-        for c in res["cases"]:
+        for c in wide + res["cases"]:
             for msg in c03_oracle(c, d, ctx.rng):
                 ofails.append((msg, dict(kind="archive", schema=c.schema, members=sorted(c.members))))
             checked += 1
